@@ -10,6 +10,8 @@ from .reference import reference_tree, _functions, _plain
 def main():
     d = sys.argv[1]
     ov = _seed_overrides("/repo", os.path.join(d, "patch.diff"))
+    from .model import Repo
+    Repo("/repo", overrides=ov)  # sets the package-wide canon context (changed names, signatures)
     for rel, text in ov.items():
         parts = rel[len("src/orquestra/quantum/"):-3].split("/")
         is_pkg = parts[-1] == "__init__"
